@@ -28,6 +28,10 @@ var Registry = map[string]Check{}
 // Level is the evidence level per property.
 var Level = map[string]string{}
 
+// RacePass maps property ids to a free-running supporting pass (run from a binary built with -race and without the
+// scheduler overlay); it returns a process exit code.
+var RacePass = map[string]func() int{}
+
 // Workers maps property ids to the request handler run inside crash-isolated worker subprocesses.
 var Workers = map[string]func(req []byte) []byte{}
 
